@@ -379,14 +379,38 @@ Fixpoint is_repetition (fuel : nat) (u t : list obs_call) : bool :=
 Definition captures_of (t : list call) : list capture :=
   map (fun c => (c_step c, group_name (c_group c), c_name c)) t.
 
-(* judge an observed outcome against the trace function `tr` (model: order regenerated from the
-   source, through run_readouts; specification: tr_readouts spec_order) *)
-Definition agrees (run : bool -> pipeline -> nat -> list call * list capture) (c : c01_case) : bool :=
+(* exposure.run_pipeline, result assembly: with debug on, `detector.intermediate` is read after the
+   last step; it only exists if at least one model was captured, else RuntimeError (the code as it
+   is: see C01_debug_runs_refuted and the known finding C01-debug-empty-run) *)
+Definition is_nil {A} (l : list A) : bool := match l with [] => true | _ => false end.
+
+Definition exposure_result (debug : bool) (order : list group) (p : pipeline) (n : nat)
+  : res (list call * list capture) :=
+  let r := run_readouts debug order p n in
+  if debug && is_nil (snd r) then Raise "RuntimeError" else Ok r.
+
+(* judge an observed outcome against a run function (model: order regenerated from the source,
+   through run_readouts, faithful = true: the debug/empty failure of the code is expected;
+   specification: tr_readouts spec_order, faithful = false: every valid pipeline must run) *)
+Definition expected_failure (faithful : bool)
+           (run : bool -> pipeline -> nat -> list call * list capture) (c : c01_case) (p : pipeline)
+  : option string :=
+  match k_mode c with
+  | Exposure true => if faithful && is_nil (snd (run true p (k_steps c))) then Some "RuntimeError" else None
+  | _ => None
+  end.
+
+Definition agrees (faithful : bool)
+           (run : bool -> pipeline -> nat -> list call * list capture) (c : c01_case) : bool :=
   match from_yaml (k_doc c), k_observed c with
   | Raise cls, Failed cls' => String.eqb cls cls'
   | Raise _, Ran _ _ => false
-  | Ok _, Failed _ => false
+  | Ok p, Failed cls' =>
+      match expected_failure faithful run c p with Some cls => String.eqb cls cls' | None => false end
   | Ok p, Ran t nodes =>
+      match expected_failure faithful run c p with
+      | Some _ => false
+      | None =>
       match k_mode c with
       | Exposure debug =>
           let r := run debug p (k_steps c) in
@@ -400,6 +424,7 @@ Definition agrees (run : bool -> pipeline -> nat -> list call * list capture) (c
             (flat_map (fun os => map obs_of (fst (run false (apply_overrides p os) (k_steps c)))) runs)
       | Calibration =>
           is_repetition (S (List.length t)) (map obs_of (fst (run false p (k_steps c)))) t
+      end
       end
   end.
 
@@ -423,12 +448,12 @@ Fixpoint indices_where {A} (f : A -> bool) (l : list A) (k : Z) : list Z :=
 
 (* indices where implementation <> model (order = names regenerated from MODEL_GROUPS) *)
 Definition mismatches (src_names : list string) (cs : list c01_case) : list Z :=
-  indices_where (fun c => negb (agrees (model_run (order_of_names src_names)) c)) cs 0%Z.
+  indices_where (fun c => negb (agrees true (model_run (order_of_names src_names)) c)) cs 0%Z.
 
 (* indices where the implementation's observed behaviour breaks the SPECIFICATION; a refused
    document (unknown key) is outside the property's statement and is only a correspondence matter *)
 Definition violations (cs : list c01_case) : list Z :=
   indices_where (fun c => match from_yaml (k_doc c) with
-                          | Ok _ => negb (agrees spec_run c)
+                          | Ok _ => negb (agrees false spec_run c)
                           | Raise _ => false
                           end) cs 0%Z.
